@@ -22,7 +22,17 @@ real object with a list model (by default after *every* step):
     observation) and the history ends with one full observation.
     ops: set K v | del K | get K | in K | getd K | pop K | popd K | popitem | setdefault K v |
          update HOW [[K, v]..] | first K | last K | before K R | after K R |
-         sort [MODE [ranks]] | copy | reparse FORM | clear | obs
+         sort [MODE [ranks]] | copy [SIDE] | reparse FORM [SIDE] | clear | obs
+    ``copy`` and ``reparse`` (dump, then parse the text in form FORM) make a second mapping.  SIDE
+    says on which of the two the history goes on: "copy" (default) - on the new object, the old one
+    is set aside; "orig" - on the old object, the new one is set aside.  An object set aside is a
+    *bystander*: it stays alive together with a clone of the model taken at that moment, nothing
+    is ever done to it again, and it is observed together with the live object (same policy: after
+    every step under "all", keys only under "keys", only by ``obs`` and at the end under "blind")
+    and has to equal that clone each time.  The last MAX_GHOSTS bystanders are kept, so copies of
+    copies and several forks of one object are alive at once.  (Their violation signatures carry
+    the prefix ``ghost-`` and the way the bystander came about: copy / reparse = the old object,
+    copy-result / reparse-result = the new one.)
 
 ``{"kind": "oset", "ci": bool, "init": [items], "ops": [...]}`` - debian._util.OrderedSet directly
     (items wrapped in _CaseInsensitiveString when ``ci``); ops add X | remove X | first X | last X |
@@ -57,7 +67,12 @@ RULE = ("cases are operation histories ([op, args..] lists; key/node operands ar
         "the steps, no value read) and 'blind' (nothing read between the steps), with an op mix rich in "
         "lookups (d[k], get, in, setdefault, pop with/without default, del, order_first) of keys that "
         "were just deleted - in particular deleted without their value ever having been read since "
-        "the assignment / parse; every history ends with a full observation. Non-trivial (deb822) = the history contains at least one "
+        "the assignment / parse; every history ends with a full observation. Two live mappings: copy and "
+        "reparse take a side - the history goes on with the new object (the old one is set aside) or with "
+        "the old one (the new one is set aside); the last 3 objects set aside stay alive as bystanders and "
+        "are compared, at every observation the policy allows and at the end, with the model as it was when "
+        "they were set aside; both sides are in the enumerated alphabets (all three policies) and in the "
+        "generated mixes, with motifs 'fork, then re-assign / delete / move / sort on the live side'. Non-trivial (deb822) = the history contains at least one "
         "successful re-order, one successful deletion and one access to a live key through a "
         "spelling other than the stored one; (oset/llist) = at least one successful removal and one "
         "successful re-order/insertion that is not a plain append; distinct = distinct canonical JSON")
@@ -75,19 +90,25 @@ ASSUMPTIONS = [
     "the labels lookup:*never-read / del:never-read describe what the harness itself has read (a value is "
     "'never read' when no lookup, view or dump was made by the harness since its last assignment or since "
     "the object was created); they are coverage labels and take no part in a verdict",
+    "copy() and a dump/parse cycle yield a mapping of its own: when a history goes on with one of the two "
+    "objects (either one, case argument SIDE), the other is kept alive as a bystander, nothing is done to it "
+    "any more, and it has to keep equalling the model as it was at that moment (its own 'sequence of "
+    "operations' ended there); up to 3 bystanders are kept and observed under the policy of the history",
     "Hypothesis 6.168 generators and stateful runner; sha1 for distinctness",
 ]
 EXHAUSTIVE = {
     "quick": "every history of 1..3 steps over the index-operand op alphabets, each from a 3-element "
-             "start: deb822 (33 ops; paragraph parsed from lines; from a dict: 1..2 steps), "
+             "start: deb822 (35 ops, copy and dump/parse continued on either object; paragraph parsed from lines; "
+             "from a dict: 1..2 steps), "
              "OrderedSet (29 ops, case-insensitive and plain items), and of 1..4 steps for LinkedList (13 ops); "
-             "sparse observation: every history of 1..2 steps over a 19-op delete/lookup alphabet from each of "
+             "sparse observation: every history of 1..2 steps over a 20-op delete/lookup/copy alphabet from each of "
              "the 14 start states under the policies keys and blind, and of 3 steps from 5 start states "
              "(empty, dict, parsed text, parsed by iter_paragraphs, Deb822Dict from pairs)",
     "thorough": "every history of 1..4 steps over the index-operand op alphabets, each from a 3-element "
-                "start: deb822 (33 ops; paragraph parsed from lines; from a dict: 1..3 steps), "
+                "start: deb822 (35 ops, copy and dump/parse continued on either object; paragraph parsed from lines; "
+                "from a dict: 1..3 steps), "
                 "OrderedSet (29 ops, case-insensitive and plain items), and of 1..5 steps for LinkedList (13 ops); "
-                "sparse observation: every history of 1..3 steps over a 19-op delete/lookup alphabet from each "
+                "sparse observation: every history of 1..3 steps over a 20-op delete/lookup/copy alphabet from each "
                 "of the 14 start states under the policies keys and blind, and of 4 steps from 5 start states "
                 "(empty, dict, parsed text, parsed by iter_paragraphs, Deb822Dict from pairs)",
 }
@@ -97,7 +118,8 @@ KEYS = ["A", "a", "Ab", "AB", "ab", "b", "B", "X-y", "x-Y", "zz",
         "C", "c", "Dd", "dD", "e1", "E1", "Ff", "fF", "g-H", "G-h", "i", "I", "J2", "j2"]
 NAMES = sorted(set(k.lower() for k in KEYS))
 _KEYCHARS = frozenset(chr(c) for c in range(0x21, 0x7f)) - frozenset(":")
-MAX_GHOSTS = 2
+MAX_GHOSTS = 3
+SIDES = ("copy", "orig")
 
 
 def valid_key(k):
@@ -269,7 +291,7 @@ class Deb822Session(object):
     ARITY = {"set": (2,), "setdefault": (2,), "update": (2,), "del": (1,), "pop": (1,), "popd": (1,),
              "popitem": (0,), "clear": (0,), "get": (1,), "in": (1,), "getd": (1,), "obs": (0,),
              "first": (1,), "last": (1,), "before": (2,), "after": (2,), "sort": (0, 1, 2),
-             "copy": (0,), "reparse": (0, 1)}
+             "copy": (0, 1), "reparse": (0, 1, 2)}
 
     WATCH = ("all", "keys", "blind")
 
@@ -277,7 +299,7 @@ class Deb822Session(object):
         self.watch = watch if watch in self.WATCH else "all"
         self.labels = set(["watch:" + self.watch])
         self.m = ListModel(ci=True)
-        self.ghosts = []          # [object, model clone, has_dump, family that retired it]
+        self.ghosts = []          # bystanders: [object, model clone, has_dump, how it came about]
         self.gone = []            # lower-cased names deleted and still absent, most recent first
         # what the harness itself has looked at (coverage labels only, never part of the verdict):
         # names whose value it has not asked for since the last assignment / since the object
@@ -394,6 +416,26 @@ class Deb822Session(object):
         self.ghosts.append([self.d, self.m.clone(), self.has_dump, fam])
         del self.ghosts[:-MAX_GHOSTS]
 
+    def fork(self, new, what, side):
+        """``new`` was made from the live object by ``what`` (copy / reparse); both stay alive.
+        The history goes on with one of them, the other becomes a bystander that has to stay as
+        the model is now."""
+        if side == "orig":
+            self.ghosts.append([new, self.m.clone(), hasattr(new, "dump"), what + "-result"])
+            del self.ghosts[:-MAX_GHOSTS]
+        else:
+            self.retire(what)
+            self.d = new
+            self.has_dump = hasattr(new, "dump")
+            self.fresh_object()
+            self.prev = (what,)
+        self.labels.add(what)
+        self.labels.add("%s:continue-on-%s" % (what, "original" if side == "orig" else "new-object"))
+        if len(self.ghosts) >= 2:
+            self.labels.add("bystanders>=2")
+        if len(set(g[3] for g in self.ghosts)) >= 2:
+            self.labels.add("bystanders:mixed-kinds")
+
     def observe(self, fam, full=False, force=False):
         """The observation between the steps, as far as the policy of this history allows it;
         ``force`` is for the observations that belong to the history itself (op ``obs``, the end)."""
@@ -433,6 +475,9 @@ class Deb822Session(object):
             self.labels.add("skipped:inapplicable")
             return
         self.applied += 1
+        if self.ghosts and fam in ("write", "delete", "reorder", "sort"):
+            for g in self.ghosts:
+                self.labels.add("kept:%s/live-%s" % (g[3], fam))
         self.observe(fam, full=(op[0] == "obs"), force=(op[0] == "obs"))
 
     def finish(self):
@@ -750,18 +795,16 @@ class Deb822Session(object):
             self.labels.add("seq:reorder>sort")
         self.prev = ("sort",)
 
-    def op_copy(self):
+    def op_copy(self, side="copy"):
+        if side not in SIDES:
+            return False
         new = self.d.copy()
         if type(new) is not type(self.d) or new is self.d:
             raise Violation("copy-type@copy", "copy() of %s gave %s" % (type(self.d).__name__, type(new).__name__))
-        self.retire("copy")
-        self.d = new
-        self.fresh_object()
-        self.labels.add("copy")
-        self.prev = ("copy",)
+        self.fork(new, "copy", side)
 
-    def op_reparse(self, form=0):
-        if not self.has_dump or not is_index(form):
+    def op_reparse(self, form=0, side="copy"):
+        if not self.has_dump or not is_index(form) or side not in SIDES:
             return False
         text = self.d.dump()
         if text != expected_dump(self.m.pairs):
@@ -782,11 +825,7 @@ class Deb822Session(object):
             new = paras[0]
         else:
             new = Deb822(text)
-        self.retire("reparse")
-        self.d = new
-        self.fresh_object()
-        self.labels.add("reparse")
-        self.prev = ("reparse",)
+        self.fork(new, "reparse", side)
 
 
 # ------------------------------------------------------------------------------------------
@@ -1183,7 +1222,8 @@ def _deb822_alphabet():
     for i in range(3):
         for j in range(3):
             ops += [["before", i, [j, "u"]], ["after", [i, "l"], j]]
-    ops += [["set", "zz", "9"], ["set", [0, "s"], "8"], ["set", "a", "7"], ["sort"], ["copy"], ["reparse", 0]]
+    ops += [["set", "zz", "9"], ["set", [0, "s"], "8"], ["set", "a", "7"], ["sort"], ["copy"], ["reparse", 0],
+            ["copy", "orig"], ["reparse", 0, "orig"]]
     return ops
 
 
@@ -1229,7 +1269,7 @@ def _sparse_alphabet():
             ["get", gone], ["getd", ["x", 0, ""]], ["in", gone], ["setdefault", ["x", 0, "u"], "6"],
             ["popd", gone], ["pop", ["x", 0, "l"]], ["del", gone], ["first", gone],
             ["set", gone, "5"], ["set", [0, "s"], "8"], ["set", "zz", "9"], ["get", [0, "l"]],
-            ["getd", -1], ["last", 0], ["copy"], ["sort"]]
+            ["getd", -1], ["last", 0], ["copy"], ["sort"], ["copy", "orig"]]
 
 
 def enum_sparse(maxlen):
@@ -1297,7 +1337,11 @@ op_setdefault = st.tuples(st.just("setdefault"), k_any, value)
 op_update = st.tuples(st.just("update"), st.sampled_from(["dict", "pairs", "kwargs", "mapping"]),
                       st.lists(st.tuples(k_any, value), max_size=3))
 op_misc = st.one_of(op_setdefault, op_update, st.just(("popitem",)), st.just(("obs",)))
-op_reparse = st.tuples(st.just("reparse"), st.integers(0, 4))
+# a second mapping is made; the history goes on with the new object or ("orig") with the old one
+op_copy = st.sampled_from([("copy",), ("copy", "orig")])
+op_reparse = st.one_of(st.tuples(st.just("reparse"), st.integers(0, 4)),
+                       st.tuples(st.just("reparse"), st.integers(0, 4), st.just("orig")))
+op_fork = st.one_of(op_copy, op_copy, op_reparse)
 
 
 def weighted(*pairs):
@@ -1310,7 +1354,7 @@ def weighted(*pairs):
 deb822_op = weighted(
     (18, op_new), (6, op_assign), (11, op_del), (1, st.just(("popitem",))),
     (12, op_move1), (18, op_move2_live), (4, op_move2), (1, op_move_self), (5, op_read),
-    (3, op_setdefault), (4, op_update), (5, sort_op), (2, st.just(("copy",))), (3, op_reparse),
+    (3, op_setdefault), (4, op_update), (5, sort_op), (3, op_copy), (3, op_reparse),
     (1, st.just(("obs",))), (1, st.one_of(st.just(("clear",)), st.just(("obs",)))))
 
 
@@ -1337,6 +1381,12 @@ motif = st.one_of(
     st.builds(lambda k, v, w: (("set", k, v), ("del", _swap_literal(k)), ("set", _swap_literal(k), w)), k_lit, value, value),
     # sort after a deletion
     st.tuples(st.tuples(st.just("del"), k_live), sort_op),
+    # two mappings alive: fork, then change on the live side what both had at that moment
+    st.tuples(op_fork, st.one_of(st.tuples(st.just("set"), k_live, value),
+                                 st.tuples(st.sampled_from(["del", "pop"]), k_live), op_move1, sort_op)),
+    # ... twice, so that bystanders of both kinds (the old and the new object) accumulate
+    st.tuples(op_fork, st.tuples(st.just("set"), k_live, value), op_fork,
+              st.tuples(st.sampled_from(["del", "pop"]), k_live), st.tuples(st.just("set"), k_live, value)),
 )
 deb822_chunk = weighted((6, deb822_op.map(lambda o: (o,))), (1, motif))
 
@@ -1393,7 +1443,7 @@ op_del_unread = st.tuples(st.sampled_from(["del", "del", "del", "pop", "popd"]),
 sparse_op = weighted(
     (10, op_new), (5, op_assign), (12, op_del_unread), (14, _lookup(k_gone)), (3, _lookup(k_any)),
     (2, st.tuples(st.just("set"), k_gone, value)), (3, st.tuples(st.sampled_from(["get", "getd", "in"]), k_live)),
-    (2, op_update), (3, op_move1), (4, op_move2_live), (2, sort_op), (1, st.just(("copy",))), (1, op_reparse),
+    (2, op_update), (3, op_move1), (4, op_move2_live), (2, sort_op), (2, op_copy), (1, op_reparse),
     (1, st.just(("popitem",))), (1, st.one_of(st.just(("clear",)), st.just(("obs",)))))
 sparse_motif = st.one_of(
     # delete a key as it stands (parsed / initialised / assigned, read or not), look it up again
@@ -1567,7 +1617,7 @@ def make_machine(rec, excluded, last_failure):
         def any_key_op(self, op):
             self.run(_jsonable(op))
 
-        @rule(op=weighted((5, sort_op), (2, st.just(("copy",))), (3, op_reparse), (1, st.just(("obs",))),
+        @rule(op=weighted((5, sort_op), (3, op_copy), (3, op_reparse), (1, st.just(("obs",))),
                           (1, st.just(("clear",)))))
         def whole(self, op):
             self.run(_jsonable(op))
